@@ -11,6 +11,7 @@ package main
 // tables take the classified level as an atom.
 
 import (
+	"go/token"
 	"fmt"
 	"go/types"
 	"sort"
@@ -351,6 +352,7 @@ func runC11(c *Ctx, pr *PropertyRun) {
 	eagerEncodingRule(c, pr, "C11")
 	// property functions are run long after the table was built
 	loopCaptureRule(c, pr, "C11")
+	propfindErrorsPropagateRule(c, pr, "C11")
 
 	davScopeTables(c, pr, "C11", true)
 
@@ -1258,4 +1260,156 @@ func clientStateRule(c *Ctx, pr *PropertyRun, prop string) {
 	}
 	r.Count("client_methods", nm)
 	r.RequireRole("client-method")
+}
+
+// propfindErrorsPropagateRule: NewPropFindResponse refuses a request body
+// that has none of propname, allprop and prop (400). Whoever builds a
+// multi-status from it hands that refusal on: an adapter that goes on after
+// the error (reporting it for one member, skipping the member) answers 207 to
+// a request the statement refuses as a whole.
+func propfindErrorsPropagateRule(c *Ctx, pr *PropertyRun, prop string) {
+	p := c.P
+	r := NewRule(prop, prop+".propfind-errors-propagate", "the error of NewPropFindResponse — and of every library function that returns it — is handed on by its caller on every path where it is non-nil (E4)")
+	pr.Rules = append(pr.Rules, r)
+	base := p.MustFunc(r, pkgInternal, "NewPropFindResponse")
+	if base == nil {
+		return
+	}
+	// functions whose error result may be the base's: they return, as their
+	// error, the error Extract of a call to a carrier
+	carriers := map[*ssa.Function]bool{base: true}
+	errOf := func(call *ssa.Call) ssa.Value {
+		for _, ref := range refsOf(call) {
+			if ex, ok := ref.(*ssa.Extract); ok && isErrorType(ex.Type()) {
+				return ex
+			}
+		}
+		return nil
+	}
+	for round := 0; round < 4; round++ {
+		for _, fn := range p.ModFns {
+			if !inLib(fn) || len(fn.Blocks) == 0 || carriers[fn] {
+				continue
+			}
+			eachCall(fn, func(site ssa.CallInstruction) {
+				call, ok := site.(*ssa.Call)
+				if !ok || !carriers[call.Common().StaticCallee()] {
+					return
+				}
+				ev := errOf(call)
+				if ev == nil {
+					return
+				}
+				for _, b := range fn.Blocks {
+					ret, ok := b.Instrs[len(b.Instrs)-1].(*ssa.Return)
+					if !ok {
+						continue
+					}
+					for _, res := range ret.Results {
+						if res == ev {
+							carriers[fn] = true
+						}
+						if phi, ok := res.(*ssa.Phi); ok {
+							for _, e := range phi.Edges {
+								if e == ev {
+									carriers[fn] = true
+								}
+							}
+						}
+					}
+				}
+			})
+		}
+	}
+	for _, fn := range p.ModFns {
+		if !inLib(fn) || len(fn.Blocks) == 0 {
+			continue
+		}
+		eachCall(fn, func(site ssa.CallInstruction) {
+			call, ok := site.(*ssa.Call)
+			if !ok || !carriers[call.Common().StaticCallee()] {
+				return
+			}
+			r.Role("propfind-response-call")
+			ok = !errSwallowed(call)
+			r.Ob(ok)
+			if !ok {
+				r.Violation("propfind-error-tolerated|"+fnKey(fn), p.instrPos(call), fmt.Sprintf("%s goes on after %s reported an error: the refusal of a PROPFIND body that names none of propname, allprop and prop (400) is turned into a per-resource status or dropped, and the request is answered 207", fnKey(fn), fnKey(call.Common().StaticCallee())), nil)
+			}
+		})
+	}
+	r.Count("carriers", len(carriers))
+	r.RequireRole("propfind-response-call")
+}
+
+// errSwallowed: the error of the call is non-nil on some path on which the
+// function nevertheless goes round its loop again or returns a nil error.
+// Returning it (as it is or wrapped), or ending without a result after
+// handing it to somebody (ServeError), is handing it on.
+func errSwallowed(call *ssa.Call) bool {
+	var ev ssa.Value
+	if tup, ok := call.Type().(*types.Tuple); ok {
+		for _, ref := range refsOf(call) {
+			if ex, ok := ref.(*ssa.Extract); ok && isErrorType(tup.At(ex.Index).Type()) {
+				ev = ex
+			}
+		}
+	} else if isErrorType(call.Type()) {
+		ev = call
+	}
+	if ev == nil {
+		return false
+	}
+	used := false
+	for _, a := range append([]ssa.Value{ev}, storedAliases(ev)...) {
+		for _, ref := range refsOf(a) {
+			switch x := ref.(type) {
+			case *ssa.Return:
+				used = true
+			case *ssa.BinOp:
+				if x.Op != token.NEQ && x.Op != token.EQL {
+					continue
+				}
+				for _, r2 := range refsOf(x) {
+					iff, ok := r2.(*ssa.If)
+					if !ok {
+						continue
+					}
+					used = true
+					succ := iff.Block().Succs[0]
+					if x.Op == token.EQL {
+						succ = iff.Block().Succs[1]
+					}
+					// everything reachable from the non-nil side
+					seen := map[*ssa.BasicBlock]bool{}
+					var stack []*ssa.BasicBlock
+					stack = append(stack, succ)
+					for len(stack) > 0 {
+						b := stack[len(stack)-1]
+						stack = stack[:len(stack)-1]
+						if seen[b] {
+							continue
+						}
+						seen[b] = true
+						if b == call.Block() {
+							return true // round the loop again
+						}
+						if ret, ok := b.Instrs[len(b.Instrs)-1].(*ssa.Return); ok {
+							for _, res := range ret.Results {
+								if isErrorType(res.Type()) {
+									if k, isK := res.(*ssa.Const); isK && k.IsNil() {
+										return true // success reported
+									}
+								}
+							}
+						}
+						stack = append(stack, b.Succs...)
+					}
+				}
+			case *ssa.Phi, *ssa.Store, *ssa.MakeInterface, ssa.CallInstruction:
+				used = true
+			}
+		}
+	}
+	return !used
 }
